@@ -67,3 +67,15 @@ Definition cut_by (p : path) (a : attr) (lo hi : nat) (c : cursor) : bool :=
       if path_eqb q p && attr_eqb b a then intersects_partially l h lo hi || is_sub_range l h lo hi
       else under_range p a lo hi q
   end.
+
+(** [wrap_pre]: excludes the block cursors for which the CURRENT [_forward_wrap.fwd_block] is wrong:
+    a block on the wrapped list, inside the wrapped range, that does not start at the range's start
+    (the code returns [(attr, blk_rng.start)] where [(attr, rng.start)] is meant).  With the repaired
+    code ([fixed = true]) nothing is excluded. *)
+Definition wrap_preb (fixed : bool) (e : edit) (c : cursor) : bool :=
+  match e, c with
+  | EWrap p a lo hi _ _ _, CBlock q b bl bh =>
+      fixed || negb (path_eqb q p && attr_eqb b a && (lo <? bl) && (bl <? hi) && (bh <=? hi))
+  | _, _ => true
+  end.
+Definition wrap_pre (fixed : bool) (e : edit) (c : cursor) : Prop := wrap_preb fixed e c = true.
